@@ -626,6 +626,12 @@ fn vmap_json(m: &BTreeMap<RecordVariantId, RecordVariantId>) -> Vec<Vec<i64>> {
 struct Ctx<'o, T: Target> {
     t: T,
     out: &'o mut Out,
+    /// the `fail_at`-th add closure call returns an error without touching the target (0 = never)
+    fail_at: usize,
+    adds: usize,
+    failed: bool,
+    /// closure calls made by the helper AFTER a closure returned an error
+    after: usize,
 }
 
 /// C20: the real helper, closures over a real target builder; the closure calls are logged as
@@ -634,6 +640,7 @@ fn convert_native_source(
     src: &RecordDefinition<NativeDatumDetails>,
     target: &str,
     strategy: &str,
+    fail_at: usize,
     resolver: &Scripted,
     out: &mut Out,
 ) {
@@ -642,6 +649,14 @@ fn convert_native_source(
         ctx: &mut Ctx<T>,
         d: &DatumDefinition<NativeDatumDetails>,
     ) -> Result<DatumId, String> {
+        if ctx.failed {
+            ctx.after += 1;
+        }
+        ctx.adds += 1;
+        if ctx.fail_at != 0 && ctx.adds == ctx.fail_at && !ctx.failed {
+            ctx.failed = true;
+            return Err("injected closure failure".to_owned());
+        }
         let sh = Shape {
             tname: d.details().type_name().to_owned(),
             size: d.details().size(),
@@ -670,6 +685,9 @@ fn convert_native_source(
         res
     }
     fn rm_cl<T: Target>(ctx: &mut Ctx<T>, id: DatumId) -> Result<(), String> {
+        if ctx.failed {
+            ctx.after += 1;
+        }
         let res = ctx.t.remove(id);
         ctx.out.ev(json!({"ev":"remove","id":id1(id),"res": if res.is_ok() {"ok"} else {"err"},
             "cur":ctx.t.cur(),"nvar":ctx.t.nvar()}));
@@ -679,6 +697,10 @@ fn convert_native_source(
         let mut ctx = Ctx {
             t: NativeT::new(resolver),
             out,
+            fail_at,
+            adds: 0,
+            failed: false,
+            after: 0,
         };
         let s = strategy.to_owned();
         let res = catch_unwind(AssertUnwindSafe(|| {
@@ -687,6 +709,9 @@ fn convert_native_source(
                 add_cl::<NativeT>,
                 rm_cl::<NativeT>,
                 |ctx: &mut Ctx<NativeT>| {
+                    if ctx.failed {
+                        ctx.after += 1;
+                    }
                     let v = ctx.t.close(&s);
                     let list = ctx.t.variant_list((vid1(v) - 1) as usize).unwrap_or_default();
                     ctx.out.ev(json!({"ev":"close","strategy":s,"res":vid1(v),"nvar":ctx.t.nvar(),
@@ -696,28 +721,35 @@ fn convert_native_source(
                 &mut ctx,
             )
         }));
-        let Ctx { t, out } = ctx;
+        let Ctx { t, out, failed, after, .. } = ctx;
+        let injected = if failed { fail_at } else { 0 };
         match res {
             Ok(Ok(map)) => {
                 let built = catch_unwind(AssertUnwindSafe(|| t.b.build()));
                 match built {
                     Ok(def) => build_event_native(
                         &def,
-                        json!({"map": vmap_json(&map), "cres":"ok"}),
+                        json!({"map": vmap_json(&map), "cres":"ok", "injected": injected, "after": after}),
                         out,
                         "convert_end",
                     ),
                     Err(_) => out.ev(json!({"ev":"convert_end","res":"panic","cres":"ok",
-                        "map": vmap_json(&map)})),
+                        "map": vmap_json(&map), "injected": injected, "after": after})),
                 }
             }
-            Ok(Err(_)) => out.ev(json!({"ev":"convert_end","res":"ok","cres":"err","map":[]})),
-            Err(_) => out.ev(json!({"ev":"convert_end","res":"ok","cres":"panic","map":[]})),
+            Ok(Err(_)) => out.ev(json!({"ev":"convert_end","res":"ok","cres":"err","map":[],
+                "injected": injected, "after": after})),
+            Err(_) => out.ev(json!({"ev":"convert_end","res":"ok","cres":"panic","map":[],
+                "injected": injected, "after": after})),
         }
     } else {
         let mut ctx = Ctx {
             t: GenericT::new(),
             out,
+            fail_at,
+            adds: 0,
+            failed: false,
+            after: 0,
         };
         let s = strategy.to_owned();
         let res = catch_unwind(AssertUnwindSafe(|| {
@@ -726,6 +758,9 @@ fn convert_native_source(
                 add_cl::<GenericT>,
                 rm_cl::<GenericT>,
                 |ctx: &mut Ctx<GenericT>| {
+                    if ctx.failed {
+                        ctx.after += 1;
+                    }
                     let v = ctx.t.close(&s);
                     let list = ctx.t.variant_list((vid1(v) - 1) as usize).unwrap_or_default();
                     ctx.out.ev(json!({"ev":"close","strategy":s,"res":vid1(v),"nvar":ctx.t.nvar(),
@@ -735,23 +770,26 @@ fn convert_native_source(
                 &mut ctx,
             )
         }));
-        let Ctx { t, out } = ctx;
+        let Ctx { t, out, failed, after, .. } = ctx;
+        let injected = if failed { fail_at } else { 0 };
         match res {
             Ok(Ok(map)) => {
                 let built = catch_unwind(AssertUnwindSafe(|| t.b.build()));
                 match built {
                     Ok(def) => build_event_generic(
                         &def,
-                        json!({"map": vmap_json(&map), "cres":"ok"}),
+                        json!({"map": vmap_json(&map), "cres":"ok", "injected": injected, "after": after}),
                         out,
                         "convert_end",
                     ),
                     Err(_) => out.ev(json!({"ev":"convert_end","res":"panic","cres":"ok",
-                        "map": vmap_json(&map)})),
+                        "map": vmap_json(&map), "injected": injected, "after": after})),
                 }
             }
-            Ok(Err(_)) => out.ev(json!({"ev":"convert_end","res":"ok","cres":"err","map":[]})),
-            Err(_) => out.ev(json!({"ev":"convert_end","res":"ok","cres":"panic","map":[]})),
+            Ok(Err(_)) => out.ev(json!({"ev":"convert_end","res":"ok","cres":"err","map":[],
+                "injected": injected, "after": after})),
+            Err(_) => out.ev(json!({"ev":"convert_end","res":"ok","cres":"panic","map":[],
+                "injected": injected, "after": after})),
         }
     }
 }
@@ -784,6 +822,7 @@ fn run_history(h: &Value, run: u64, with_converts: bool, out: &mut Out) {
                                     &def,
                                     c[0].as_str().unwrap(),
                                     c[1].as_str().unwrap(),
+                                    c[2].as_u64().unwrap_or(0) as usize,
                                     &resolver,
                                     out,
                                 );
